@@ -105,7 +105,7 @@ void Net::complete_read(const StreamPtr& s, error_code ec, size_t n) {
     size_t got = 0;
     if (n > 0 && s->conn >= 0) {
         Conn& c = conns[s->conn]; got = std::min(n, std::min(s->read_cap, c.b2c.size()));
-        memcpy(s->read_ptr, c.b2c.data(), got); c.b2c.erase(0, got); c.bytes_b2c_read += got; c.last_read_ns = vclock::now_ns(); c.read_marks.emplace_back(c.bytes_b2c_read, c.last_read_ns);
+        memcpy(s->read_ptr, c.b2c.data(), got); c.b2c.erase(0, got); c.bytes_b2c_read += got; c.last_read_ns = vclock::now_ns(); c.read_marks.emplace_back(c.bytes_b2c_read, c.last_read_ns); c.read_mark_seq.push_back(op_seq);
     }
     if (ec && ec != asio::error::operation_aborted && s->first_error_ns < 0) s->first_error_ns = vclock::now_ns();
     post_handler(*this, s->ex, std::move(h), ec, got);
@@ -127,7 +127,7 @@ void Net::complete_write(const StreamPtr& s, error_code ec, size_t n) {
     auto h = std::move(s->write_h); s->write_parked = false;
     // log logical writes: a short successful write is continued by asio::async_write with the remaining bytes
     if (!ec && s->lw_written + n < s->lw_data.size()) s->lw_written += n;
-    else { wlog.push_back({s->conn, s->id, s->lw_data, !ec, s->lw_written + (ec ? 0 : n), vclock::now_ns(), wire_size ? wire_size() : 0, s->lw_start_ns, s->lw_seq_start}); s->lw_data.clear(); s->lw_written = 0; }
+    else { wlog.push_back({s->conn, s->id, s->lw_data, !ec, s->lw_written + (ec ? 0 : n), vclock::now_ns(), wire_size ? wire_size() : 0, s->lw_start_ns, s->lw_seq_start, op_seq}); s->lw_data.clear(); s->lw_written = 0; }
     s->write_data.clear();
     if (ec && ec != asio::error::operation_aborted && s->first_error_ns < 0) s->first_error_ns = vclock::now_ns();
     post_handler(*this, s->ex, std::move(h), ec, n);
